@@ -50,8 +50,10 @@ RULE = ("each case: print options (lossless, precision 0..9, line length 10..120
         "as regression witnesses in corpus/C10.ops. Scanned booleans are observed with their payload val.T. "
         "A case is non-trivial when it has at least two argument tokens; distinct = distinct op line")
 ASSUMPTIONS = [
-    "the fix patches fixes/C10-01 … C10-17, fixes/C11-01 … C11-06 (and C16-*.patch for rtosc_arg_vals_eq on repeated "
-    "arrays) are applied to the tree; the model Pretty/{Scan,Check}.lean mirrors the scanner and the checker with them",
+    "the fix patches fixes/C10-01 … C10-17, fixes/C11-01 … C11-06, fixes/C11-08 (and C16-*.patch for rtosc_arg_vals_eq on "
+    "repeated arrays) are applied to the tree; the model Pretty/{Lex,Scan,Check}.lean mirrors the scanner and the checker "
+    "with them (C11-08: the numeric word of scanf_fmtstr also ends at the comment sign '%', Lex.numWordLen; no text the "
+    "printer writes has a '%' inside or directly behind a numeric word, so no printed text changes its reading)",
     "proved (Lean, all values, no bound): tier 1 for every scalar value: i h c, f d (finite, lossless mode, bit-exact), "
     "s S (printable ASCII + C escapes, every line length), b m r T F N I, time tags ('immediately', without fraction, "
     "with float-representable fraction in lossless mode; UTC calendar model); tier 2 (lists and whole messages, any "
